@@ -18,7 +18,8 @@ namespace cppcms { namespace impl { struct process_settings { static shmem_contr
 namespace {
 using cppcms::impl::base_cache;
 
-std::string key_name(int k){ return "k" + std::to_string(k); }
+int g_key_pad[64];   // per-run: key i is padded to this length (long keys exercise allocation failures while the key itself is copied into shared memory)
+std::string key_name(int k){ std::string n = "k" + std::to_string(k); int pad = (k >= 0 && k < 64) ? g_key_pad[k] : 0; if(pad > (int)n.size()) n += std::string((size_t)pad - n.size(),(char)('A' + k % 26)); return n; }
 std::string trig_name(int t){ return t >= 100 ? key_name(t-100) : "t" + std::to_string(t); }
 std::string make_val(int opidx,int len){
 	std::string v = "v" + std::to_string(opidx) + "|";
@@ -76,6 +77,7 @@ struct E2 : Engine {
 		int nops = thorough ? 10 + r.below(400) : 8 + r.below(120);
 		if(process && r.below(3) == 0) nops = thorough ? 2000 + r.below(8000) : 300 + r.below(900);   // long fill/clear cycles
 		bool bigvals = process && r.below(2);
+		{ J kp = J::arr(); for(int i=0;i<nkeys && i<64;i++){ unsigned x = r.below(10); int pad = 0; if(x == 0) pad = 16 + r.below(40); else if(process && x == 1) pad = mem_kb*1024/8 + r.below(mem_kb*1024/6); else if(process && x == 2) pad = 1000 + r.below(30000); kp.push(pad); } p["key_pad"] = kp; }
 		J ops = J::arr();
 		auto pick_trigs = [&](J &o){ J tr = J::arr(); int n = ntrig ? r.below(3) : 0; for(int i=0;i<n;i++) tr.push((int)r.below(ntrig)); if(r.below(6) == 0) tr.push(100 + (int)r.below(nkeys)); if(r.below(50)==0) for(int i=0;i<30;i++) tr.push(200+i); o["trig"] = tr; };
 		auto pick_dl = [&]()->int { unsigned x = r.below(10); return x < 5 ? 1 + (int)r.below(8) : x < 8 ? 50 + (int)r.below(1000) : x == 8 ? -(int)r.below(3) : 0; };
@@ -231,6 +233,7 @@ struct E2 : Engine {
 		simk::Params sp; sp.sched_seed = 1; sp.fault_seed = (uint64_t)plan.geti("fault_seed",1); sp.tick_us = 0; sp.text_trace = plan.geti("text_trace");
 		simk::begin(sp);
 		c.process = plan.gets("backend") == "process"; c.c08 = plan.gets("prop") == "C08";
+		{ memset(g_key_pad,0,sizeof(g_key_pad)); const J &kp = plan.get("key_pad"); for(size_t i=0;i<kp.size() && i<64;i++) g_key_pad[i] = (int)std::max<int64_t>(0,std::min<int64_t>(kp.a[i].as_int(),4<<20)); }
 		unsigned limit = (unsigned)std::max<int64_t>(0,plan.geti("limit")); c.cands.resize(1); c.M().limit = limit;
 		bool iface = plan.geti("iface") && !c.process;
 		const J &ops = plan.get("ops");
